@@ -585,6 +585,14 @@ func (r *Resolver) groupLookup(ctx context.Context, rs *resolveState, req *dns.M
 	}
 	key := strconv.FormatUint(cache.Key(q), 10) + "|" + servers.Zone +
 		"|" + string(cd) + "|" + strconv.FormatUint(servers.Fingerprint(), 10)
+	// A forwarded client subnet (RFC 7871) is part of what the authority
+	// is asked: its reply is tailored to, and scoped for, that subnet.
+	// Two lookups that differ only there are different lookups — sharing
+	// one would hand a follower the leader's audience's answer. The
+	// common query carries no such option and keeps the key above.
+	if subnet := forwardedSubnetKey(req); subnet != "" {
+		key += "|" + subnet
+	}
 
 	// The leader closure can outlive this caller: TimedDoChan returns on this
 	// caller's timeout/cancel while the shared generation remains registered
@@ -670,6 +678,22 @@ func (r *Resolver) groupLookup(ctx context.Context, rs *resolveState, req *dns.M
 		}
 		return resp, nil
 	}
+}
+
+// forwardedSubnetKey renders the client-subnet option req carries upstream
+// as a singleflight key component, or "" when it carries none.
+func forwardedSubnetKey(req *dns.Msg) string {
+	opt := req.IsEdns0()
+	if opt == nil {
+		return ""
+	}
+	for _, o := range opt.Option {
+		if sub, ok := o.(*dns.EDNS0_SUBNET); ok {
+			return strconv.Itoa(int(sub.Family)) + "/" + sub.Address.String() +
+				"/" + strconv.Itoa(int(sub.SourceNetmask))
+		}
+	}
+	return ""
 }
 
 func (r *Resolver) checkLoop(ctx context.Context, qname string, qtype uint16) (context.Context, bool) {
